@@ -150,7 +150,7 @@ def build(ch, allow_far=False):
             lits += [-snum, snum + 1]; base.append(axis * (zhi - zlo))
         else:
             lits += [snum + 1, -snum]; base.append(-axis * (zhi - zlo))
-        rng.append(ch.choose('range3', [(0, 1), (0, 0), (-1, 0)]))
+        rng.append(ch.choose('range3', [(0, 1), (0, 0), (-1, 0), (1, 1)]))     # (1, 1): one storey, not the one of the cell itself
     else:
         if ch.choose('trailing-trivial', [False, True]):
             rng.append((0, 0))
@@ -247,7 +247,7 @@ def build_macro(ch):
     d.surfcards[60] = mnem + body.card[3:]
     d.refsurfs[60] = refsem.RefSurf(body.facets, body.inside)
     base = [2.0 * r, 2.0 * sv, h]
-    rng = [(-1, 1), (-1, 1), ch.choose('range3', [(0, 0), (0, 1), (-1, 0)])]
+    rng = [(-1, 1), (-1, 1), ch.choose('range3', [(0, 0), (0, 1), (-1, 0), (1, 1)])]
     lat = HCell(20, -60, mat=4, rho='-1.5', u=1, lat=2)
     lat.base = base
     lat.ranges = rng
